@@ -746,7 +746,50 @@ def run(res: Results, idx: Index, tier: str) -> None:
     rule_f_inner(res, idx, m)
     rule_g(res, idx, m)
     rule_h(res, idx, m)
-    rule_i(res, idx, tier)
+    if not getattr(res, "_nested_xref", False):
+        rule_i(res, idx, tier)
+    rule_j(res, idx, m)
+
+
+# ---------------------------------------------------------------------------------------------- R-C02j
+def rule_j(res: Results, idx: Index, m: Module) -> None:
+    """Value-identity predicates used as rewrite preconditions (`_same_value`: "x * Sigmoid(x)" is only a Swish when
+    both operands are the *same* value) are evaluated on a small universe of abstract values: they may answer True
+    only for the same object or for equal non-empty names — in particular not for two different outputs of one node."""
+    from ..symeval import EvalRaise, Evaluator, Obj, Unsupported, library_dtypes
+    res.rule("R-C02j", "value-identity predicates answer True only for the same value (same object or equal non-empty name)", floor=1)
+    f = idx.find_func(OPT, "_same_value")
+    if f is None:
+        raise AnalysisError("_same_value not found (anchor of the Swish rewrite precondition)")
+    n1, n2 = Obj("Node", name="n1", op_type="Split"), Obj("Node", name="n2", op_type="Relu")
+
+    def val(name, node, index):
+        return Obj("Value", name=name, producer=(lambda: node), index=(lambda: index), is_graph_output=(lambda: False), uses=(lambda: ()), shape=None, type=None, dtype=None, const_value=None)
+    universe = [("a@n1#0", val("a", n1, 0)), ("b@n1#1", val("b", n1, 1)), ("c@n2#0", val("c", n2, 0)), ("a'@n1#0 (re-created)", val("a", n1, 0)),
+                ("unnamed@n2#0", val("", n2, 0)), ("unnamed'@n2#1", val("", n2, 1)), ("input x", val("x", None, None)), ("input y", val("y", None, None)), ("None", None)]
+    ev = Evaluator(idx, library_dtypes())
+    key = f"{OPT}::_same_value::identity"
+    site = f"{OPT}:{f.node.lineno}"
+    n = 0
+    try:
+        for la, a in universe:
+            for lb, b in universe:
+                n += 1
+                try:
+                    got = ev.truth(ev.call(f, [a, b]))
+                except EvalRaise:
+                    continue
+                same = a is not None and b is not None and (a is b or (bool(a.attrs["name"]) and a.attrs["name"] == b.attrs["name"]))
+                if got and not same:
+                    res.violation("R-C02j", site, key, f"_same_value({la}, {lb}) is True although these are different values: a rewrite guarded by it (Mul(x, Sigmoid(x)) -> Swish) then fires for Mul(p, Sigmoid(q)) with p != q", f.qualname)
+                    return
+                if same and a is b and not got:
+                    res.unresolved("R-C02j", site, key, f"_same_value({la}, {lb}) is False for the same object (rewrites are lost, not unsound)", f.qualname)
+                    return
+    except Unsupported as e:
+        res.unresolved("R-C02j", site, key, f"outside the evaluator's subset: {e}", f.qualname)
+        return
+    res.ok("R-C02j", site, key, f"sound on {n} pairs of abstract values (same node / different output index, equal names, unnamed values, graph inputs, None)", f.qualname)
 
 
 # ---------------------------------------------------------------------------------------------- R-C02i
